@@ -4,7 +4,9 @@ set -e
 P=$(readlink -f "$1"); shift
 S=${VERIF_SCRATCH:-/var/tmp/verif-$$}
 mkdir -p "$S"
-git -C /repo worktree add -q --detach "$S/wt" HEAD
+# several of these may run at once: retry if git's own locks collide
+for i in 1 2 3 4 5 6; do git -C /repo worktree add -q --detach "$S/wt" HEAD 2>/dev/null && break; sleep 1; done
+[ -d "$S/wt" ] || { echo "mutant.sh: could not create the scratch worktree"; exit 3; }
 trap 'git -C /repo worktree remove --force "$S/wt"; rm -rf "$S"' EXIT
 git -C "$S/wt" apply "$P"
 VERIF_REPO="$S/wt" VERIF_OUT="$S/out" /verif/bin/gowp "$@" || true
